@@ -917,3 +917,54 @@ Definition client_ad (q : creq) (resp_ad : bool) : bool := if noad q then false 
 Definition cache_ad (q : creq) (stored_ad : bool) : bool := if q_cd q then false else stored_ad.
 (* a cache hit served through the edns writer *)
 Definition client_ad_cached (q : creq) (stored_ad : bool) : bool := client_ad q (cache_ad q stored_ad).
+
+(* ------------------------------------------- the cache as a store of verdicts; the alias chase over it *)
+(* One entry per (folded) name and CD partition: the AD bit the answer was filed with, and either the name its CNAME
+   points at (compared without regard to letter case since a4faf69: names are numbers here, the drivers fold) or
+   terminal data.  ResponseWriter.WriteMsg files what the resolver answered under the partition of the REQUEST's CD bit,
+   AD bit as the resolver set it. *)
+Record centry := mk_centry { ce_ad : bool; ce_next : option N }.
+Definition cstore := list (N * centry).
+Fixpoint cs_find (st : cstore) (n : N) : option centry :=
+  match st with
+  | [] => None
+  | (n', e) :: r => if n =? n' then Some e else cs_find r n
+  end.
+(* filing a verdict: (partition CD=0, partition CD=1) after one write *)
+Definition file_verdict (verdict_ad req_cd : bool) : option bool * option bool :=
+  if req_cd then (None, Some verdict_ad) else (Some verdict_ad, None).
+(* what the resolver's outcome leaves to be filed *)
+Definition filed_ad (o : outcome) : option bool := match o with Accept m => Some (m_ad m) | Fail _ => None end.
+
+(* the alias path from a name: entries visited in order, and whether it ended in terminal data (a missing entry, a
+   revisited name or an exhausted budget end it incomplete) *)
+Fixpoint walk (st : cstore) (fuel : nat) (cur : N) (seen : list N) : list N * bool :=
+  match fuel with
+  | O => ([], false)
+  | S f =>
+      if existsb (N.eqb cur) seen then ([], false) else
+      match cs_find st cur with
+      | None => ([], false)
+      | Some e =>
+          match ce_next e with
+          | None => ([cur], true)
+          | Some t => let '(p, c) := walk st f t (cur :: seen) in (cur :: p, c)
+          end
+      end
+  end.
+Definition stored_ad (st : cstore) (n : N) : bool :=
+  match cs_find st n with Some e => ce_ad e | None => false end.
+(* searchAdditionalAnswer / composeWireChase: the composed reply is authentic only if every entry that contributed
+   records is; then the CD clear of the cache and the noad rule of the edns writer *)
+Definition composed_ad (st : cstore) (owners : list N) : bool := forallb (stored_ad st) owners.
+Definition served_ad (q : creq) (st : cstore) (owners : list N) : bool := client_ad_cached q (composed_ad st owners).
+Fixpoint is_prefix (a b : list N) : bool :=
+  match a, b with
+  | [], _ => true
+  | x :: a', y :: b' => (x =? y) && is_prefix a' b'
+  | _ :: _, [] => false
+  end.
+(* the entry of the question's own name aliases onto that very name *)
+Definition self_alias (st : cstore) (qn : N) : bool :=
+  match cs_find st qn with Some e => match ce_next e with Some t => t =? qn | None => false end | None => false end.
+
